@@ -38,11 +38,11 @@ func c19State(s uint32) string {
 func init() {
 	Register(&Rule{
 		ID: "C19", Section: "5 C19",
-		Technique: "typestate dataflow over *ipdict.IPItems (new/inserted/sorted/published) in every function on the producer chain of IPTable.Update, dominance rules inside IPItems.Sort, sibling agreement between ipPairs.Less, the sort.Search predicate and the end-of-range test (evaluated on the three outcomes of bytes.Compare), normaliser agreement (net.IP.To16) between insert and lookup, lock-set on IPTable.ipItems, who-may-write census of IPItems.items, operand provenance and guard/store agreement in the merge step (checkMerge/mergeItems and helpers), tombstone write/test agreement",
+		Technique: "typestate dataflow over *ipdict.IPItems (new/inserted/sorted/published) in every function on the producer chain of IPTable.Update, dominance rules inside IPItems.Sort, sibling agreement between ipPairs.Less, the sort.Search predicate and the end-of-range test (evaluated on the three outcomes of bytes.Compare), normaliser agreement (net.IP.To16) between insert and lookup, lock-set on IPTable.ipItems, who-may-write census of IPItems.items, operand provenance and guard/store agreement in the merge step (checkMerge/mergeItems and helpers), tombstone write/test agreement, natural-loop analysis of the merge step (single exit, induction variable, reviewed scan ranges, skip-edge classification)",
 		Meta: core.Meta{
 			Level:       "other",
-			Explanation: "Decides: (a) every *IPItems handed to IPTable.Update comes from a producer (ipItemsMake, GlobalIPTableLoad -> TxtFileLoader.CheckAndLoad) that returns it only in state sorted (no InsertPair/InsertSingle or other mutator after the last Sort() on any path), Update is reached only when the producer's error is nil, and nothing mutates the value after it was published; the errors of InsertPair/InsertSingle are looked at by the producers, and a loader uses InsertSingle only under start == end; (b) IPItems.Sort sorts before mergeItems, sorts again on every path after it, and truncates items to len-mergedNum after that second sort; (c) ipPairs.Less orders by startIP descending and the sort.Search predicate in IPTable.Search is `items[i].startIP <= probe` (non-strict, same field, same direction), a hit is reported only for a set hit (HashSet.Exist(probe)) or under index < len && items[index].endIP >= probe with index the result of that sort.Search, on the items snapshot read under the lock; (d) stored bounds, stored singles and the probe are all net.IP.To16 values, InsertPair appends only after checkIPPair succeeded and checkIPPair accepts exactly start <= end; (e) IPTable.ipItems is read and written under t.lock; IPItems.items is written only by NewIPItems/InsertPair/Sort and its elements only by checkMerge/Swap.; (f) in the merge step (every in-package function reachable from IPItems.Sort): every bytes.Compare / Equal compares stored bounds (ipPair.startIP/endIP, possibly passed through a helper parameter) or net.IPv6zero/IPv4zero, never a value computed from a bound (address arithmetic wraps at the ends of the address space); a bound of one element is overwritten with the same bound of another element only under a guard that compares the absorbed element's endIP with the overwritten bound and holds for '>' and not for '<'; a merged entry gets both bounds set to net.IPv6zero; every 'already merged' test reads endIP (a startIP test only in conjunction with an endIP test on the same pair), and the value written as tombstone is one the tests compare endIP with. Not covered: that checkMerge is called with i < j on a descending slice and visits all pairs (loop bounds of mergeItems), the degenerate range ::-:: (it equals a tombstone), the odd index in mergeItems' inner IPv4zero test (items[i] instead of items[j]; harmless: tombstones are written as IPv6zero), the non-strict ipPairs.Less, hash-set behaviour (C20), parsing of the dictionary files. A correct saturating 'merge adjacent ranges' extension would be reported by merge-operands as a form the rule cannot follow.",
-			RuleText:    "obligations = each return / Update / mutator event of the functions on the producer chain with the abstract state reaching it; the ordering facts of Sort; the comparison shapes of Less, the Search predicate, the range-end test and checkIPPair; each To16 normalisation site; each access of IPTable.ipItems; each writer of IPItems.items; each comparison, each bound-overwriting store, each tombstone write and each zero test of the merge step",
+			Explanation: "Decides: (a) every *IPItems handed to IPTable.Update comes from a producer (ipItemsMake, GlobalIPTableLoad -> TxtFileLoader.CheckAndLoad) that returns it only in state sorted (no InsertPair/InsertSingle or other mutator after the last Sort() on any path), Update is reached only when the producer's error is nil, and nothing mutates the value after it was published; the errors of InsertPair/InsertSingle are looked at by the producers, and a loader uses InsertSingle only under start == end; (b) IPItems.Sort sorts before mergeItems, sorts again on every path after it, and truncates items to len-mergedNum after that second sort; (c) ipPairs.Less orders by startIP descending and the sort.Search predicate in IPTable.Search is `items[i].startIP <= probe` (non-strict, same field, same direction), a hit is reported only for a set hit (HashSet.Exist(probe)) or under index < len && items[index].endIP >= probe with index the result of that sort.Search, on the items snapshot read under the lock; (d) stored bounds, stored singles and the probe are all net.IP.To16 values, InsertPair appends only after checkIPPair succeeded and checkIPPair accepts exactly start <= end; (e) IPTable.ipItems is read and written under t.lock; IPItems.items is written only by NewIPItems/InsertPair/Sort and its elements only by checkMerge/Swap.; (f) in the merge step (every in-package function reachable from IPItems.Sort): every bytes.Compare / Equal compares stored bounds (ipPair.startIP/endIP, possibly passed through a helper parameter) or net.IPv6zero/IPv4zero, never a value computed from a bound (address arithmetic wraps at the ends of the address space); a bound of one element is overwritten with the same bound of another element only under a guard that compares the absorbed element's endIP with the overwritten bound and holds for '>' and not for '<'; a merged entry gets both bounds set to net.IPv6zero; every 'already merged' test reads endIP (a startIP test only in conjunction with an endIP test on the same pair), and the value written as tombstone is one the tests compare endIP with.; (g) the pair scan of the merge step is exhaustive: every loop of mergeItems/checkMerge (and helpers) is an index scan that is left only through its own condition `index < bound` (no break/return/panic inside), advances by exactly one, and covers one of the reviewed complete ranges ([0,len(items)), [0,len(items)-1) with a nested scan of the rest, [outer index+1,len(items)), or all indices strictly between two index parameters); the merge helper is called with (absorbing, absorbed) = (outer index, index of the scan that starts right after it), the roles being read off the helper's `items[a].startIP = items[b].startIP`; on the way from the loop head to that call a pair is skipped only by an 'already merged' test (Equal with net.IPv6zero/IPv4zero on a stored bound, also through a helper) or by `absorbed.endIP < absorbing.startIP` (provably disjoint). Not covered: that the list is really in descending start order when the scan runs beyond what (b) states, the degenerate range ::-:: (it equals a tombstone), the odd index in mergeItems' inner IPv4zero test (items[i] instead of items[j]; harmless: tombstones are written as IPv6zero), the non-strict ipPairs.Less, hash-set behaviour (C20), parsing of the dictionary files. A correct saturating 'merge adjacent ranges' extension would be reported by merge-operands as a form the rule cannot follow.",
+			RuleText:    "obligations = each return / Update / mutator event of the functions on the producer chain with the abstract state reaching it; the ordering facts of Sort; the comparison shapes of Less, the Search predicate, the range-end test and checkIPPair; each To16 normalisation site; each access of IPTable.ipItems; each writer of IPItems.items; each comparison, each bound-overwriting store, each tombstone write and each zero test of the merge step; each loop of the merge step (single exit, scan range), each call that receives a pair of indices (order, skip filters)",
 			Assumptions: []string{"sort.Sort leaves the slice ordered by Less; sort.Search returns the first index for which the predicate holds", "functions outside bfe_util/ipdict can reach IPItems.items only through the exported methods (the field is unexported)"},
 		},
 		Run: runC19,
@@ -67,6 +67,15 @@ func init() {
 			{Name: "tombstone-test-on-start-outer-loop", File: "bfe_util/ipdict/ipdict.go", Old: "		if items[i].endIP.Equal(net.IPv6zero) || items[i].endIP.Equal(net.IPv4zero) {", New: "		if items[i].startIP.Equal(net.IPv6zero) || items[i].startIP.Equal(net.IPv4zero) {", Expect: "tombstone-test|IPItems.mergeItems"},
 			{Name: "tombstone-keeps-start", File: "bfe_util/ipdict/ipdict.go", Old: "		items[j].startIP = net.IPv6zero\n", New: "", Expect: "tombstone-write|IPItems.checkMerge"},
 			{Name: "tombstone-written-as-v4-zero", File: "bfe_util/ipdict/ipdict.go", Old: "			items[k].startIP = net.IPv6zero\n			items[k].endIP = net.IPv6zero", New: "			items[k].startIP = net.IPv4zero\n			items[k].endIP = net.IPv4zero", Expect: "tombstone-write|IPItems.checkMerge"},
+			{Name: "scan-tombstone-loop-breaks-at-merged-entry", File: "bfe_util/ipdict/ipdict.go", Old: "			if items[k].endIP.Equal(net.IPv6zero) || items[k].endIP.Equal(net.IPv4zero) {\n				continue\n			}", New: "			if items[k].endIP.Equal(net.IPv6zero) || items[k].endIP.Equal(net.IPv4zero) {\n				break\n			}", Expect: "merge-scan|IPItems.checkMerge:loop#1:single-exit"},
+			{Name: "scan-stops-at-first-disjoint-after-merge", File: "bfe_util/ipdict/ipdict.go", Old: "			mergedNum += ipItems.checkMerge(i, j)\n", New: "			n := ipItems.checkMerge(i, j)\n			if n == 0 && mergedNum > 0 {\n				break\n			}\n			mergedNum += n\n", Expect: "merge-scan|IPItems.mergeItems:loop#2:single-exit"},
+			{Name: "scan-inner-starts-late", File: "bfe_util/ipdict/ipdict.go", Old: "		for j := i + 1; j < length; j++ {", New: "		for j := i + 2; j < length; j++ {", Expect: "merge-scan|IPItems.mergeItems:loop#2:range"},
+			{Name: "scan-outer-stops-short", File: "bfe_util/ipdict/ipdict.go", Old: "	for i := 0; i < length-1; i++ {", New: "	for i := 0; i < length-2; i++ {", Expect: "merge-scan|IPItems.mergeItems:loop#1:range"},
+			{Name: "scan-pair-swapped", File: "bfe_util/ipdict/ipdict.go", Old: "			mergedNum += ipItems.checkMerge(i, j)\n", New: "			mergedNum += ipItems.checkMerge(j, i)\n", Expect: "merge-scan|IPItems.mergeItems:pair-call#1:order"},
+			{Name: "scan-skips-pairs-ending-below", File: "bfe_util/ipdict/ipdict.go", Old: "			mergedNum += ipItems.checkMerge(i, j)\n", New: "			if bytes.Compare(items[j].endIP, items[i].endIP) < 0 {\n				continue\n			}\n			mergedNum += ipItems.checkMerge(i, j)\n", Expect: "merge-scan|IPItems.mergeItems:pair-call#1:filters"},
+			{Name: "silent-scan-disjoint-prefilter", File: "bfe_util/ipdict/ipdict.go", Old: "			mergedNum += ipItems.checkMerge(i, j)\n", New: "			if bytes.Compare(items[j].endIP, items[i].startIP) < 0 {\n				continue\n			}\n			mergedNum += ipItems.checkMerge(i, j)\n", Silent: true},
+			{Name: "silent-scan-outer-range-loop", File: "bfe_util/ipdict/ipdict.go", Old: "	for i := 0; i < length-1; i++ {", New: "	for i := range items {", Silent: true},
+			{Name: "silent-scan-count-separately", File: "bfe_util/ipdict/ipdict.go", Old: "			mergedNum += ipItems.checkMerge(i, j)\n", New: "			n := ipItems.checkMerge(i, j)\n			if n > 0 {\n				mergedNum += n\n			}\n", Silent: true},
 			{Name: "silent-merged-helper-on-end", File: "bfe_util/ipdict/ipdict.go", Old: "			if items[k].endIP.Equal(net.IPv6zero) || items[k].endIP.Equal(net.IPv4zero) {\n				continue\n			}\n\n			items[k].startIP = net.IPv6zero\n			items[k].endIP = net.IPv6zero\n			mergedNum++\n		}\n	}\n\n	return mergedNum\n}\n", New: "			if items[k].merged() {\n				continue\n			}\n\n			items[k].startIP = net.IPv6zero\n			items[k].endIP = net.IPv6zero\n			mergedNum++\n		}\n	}\n\n	return mergedNum\n}\n\nfunc (p ipPair) merged() bool {\n	return p.endIP.Equal(net.IPv6zero) || p.endIP.Equal(net.IPv4zero)\n}\n", Silent: true},
 			{Name: "silent-overlap-helper", File: "bfe_util/ipdict/ipdict.go", Old: "	if bytes.Compare(items[j].endIP, items[i].startIP) >= 0 {\n		items[i].startIP = items[j].startIP\n		if bytes.Compare(items[j].endIP, items[i].endIP) >= 0 {", New: "	lower, upper := items[j], items[i]\n	_ = upper\n	if bytes.Compare(items[j].endIP, items[i].startIP) >= 0 {\n		items[i].startIP = lower.startIP\n		if bytes.Compare(items[j].endIP, items[i].endIP) >= 0 {", Silent: true},
 			{Name: "silent-tombstone-helper", File: "bfe_util/ipdict/ipdict.go", Old: "		items[j].startIP = net.IPv6zero\n		items[j].endIP = net.IPv6zero\n\n		mergedNum++\n", New: "		func(p *ipPair) {\n			p.startIP = net.IPv6zero\n			p.endIP = net.IPv6zero\n		}(&items[j])\n\n		mergedNum++\n", Silent: true},
@@ -233,6 +242,7 @@ func runC19(c *core.Ctx) {
 
 	// ---- (f) the merge step between the two sorts -----------------------------
 	x.mergeRules(startFld, endFld)
+	x.mergeScanRules(itemsFld, startFld, endFld)
 
 	// ---- (e) IPTable.ipItems under t.lock -------------------------------------
 	for _, fn := range pkgFns {
